@@ -14,6 +14,9 @@ import CpProofs.Text
   3. invariance      whitespace runs before/after separators and at both ends, empty elements under `skip_empty`;
                       the canonical spellings parse back
   4. cost            interpreter steps are linear; the bytes copied by the search's slices are quadratic
+  5. quote-aware     the same for `quote_aware=True` (`parseStringArrayQ`, used by the header value lists): refinement to
+                      the split outside quoted-strings, totality, invariance, canonical spelling,
+                      `quoted_separator_not_split`
 -/
 namespace Cp.C18
 open Cp Cp.Text
@@ -153,6 +156,163 @@ theorem search_bytes_quadratic (sep : UInt8) (b : Bytes) (hb : sep ∉ b) :
     2 * sepSearchBytes b 0 [[sep]] (b.length + 1) 0 = b.length * (b.length + 1) :=
   Cp.Text.search_bytes_quadratic sep b hb
 
+/-! ## 5. the quote-aware scanner (`quote_aware=True`: the value lists of header fields and TXT policy records)
+
+`parseStringArrayQ` transcribes `_parse_string_array(…, quote_aware=True)`; its specification `splitTrimDropQ` splits
+only on a separator that is read OUTSIDE an RFC 7230 quoted-string (`splitQ`; `QState`/`qNext` is the state machine
+of `_get_quoted_string_state`).  Side conditions: the separator is not the double quote and not a whitespace byte, the
+whitespace bytes do not contain the double quote (`,`/`;` with SP/HTAB).  Edits are made outside quoted-strings:
+`qAfter .out a = .out` says that the text `a` in front of the edited place has balanced quotes. -/
+
+/-- REFINEMENT (quote-aware).  ANY byte string: unbalanced quotes, backslashes, non-ASCII bytes. -/
+theorem qa_scan_refines_split (sep : UInt8) (ws : Bytes) (skipEmpty : Bool) (hsep : sep ∉ ws) (hq : sep ≠ 0x22)
+    (hqw : (0x22 : UInt8) ∉ ws) (b : Bytes) :
+    parseStringArrayQ b 0 [sep] ws skipEmpty none =
+      match splitTrimDropQ sep ws skipEmpty b with
+      | .ok items => .ok (items, b.length)
+      | .error e => .error e := by
+  have := array_refines_atQ sep ws skipEmpty hsep hq hqw [] b
+  simp only [List.nil_append, List.length_nil] at this
+  rw [this]
+  cases splitTrimDropQ sep ws skipEmpty b <;> rfl
+
+/-- The same from any `_parsed_length`. -/
+theorem qa_scan_refines_split_at (sep : UInt8) (ws : Bytes) (skipEmpty : Bool) (hsep : sep ∉ ws) (hq : sep ≠ 0x22)
+    (hqw : (0x22 : UInt8) ∉ ws) (pre b : Bytes) :
+    parseStringArrayQ (pre ++ b) pre.length [sep] ws skipEmpty none =
+      match splitTrimDropQ sep ws skipEmpty b with
+      | .ok items => .ok (items, (pre ++ b).length)
+      | .error e => .error e := by
+  rw [array_refines_atQ sep ws skipEmpty hsep hq hqw pre b]
+  cases splitTrimDropQ sep ws skipEmpty b <;> rfl
+
+/-- TOTAL (quote-aware): items and a position inside the buffer, or `InvalidValue` — every separator set, whitespace
+set, `skip_empty`, `max_item_num`, every input. -/
+theorem qa_array_total (b sepSet ws : Bytes) (skipEmpty : Bool) (maxItems : Option Nat) (off : Nat)
+    (hoff : off ≤ b.length) :
+    (∃ items off', parseStringArrayQ b off sepSet ws skipEmpty maxItems = .ok (items, off') ∧ off' ≤ b.length) ∨
+      parseStringArrayQ b off sepSet ws skipEmpty maxItems = .error .invalidValue :=
+  Cp.Text.array_totalQ b sepSet ws skipEmpty maxItems off hoff
+
+/-- NO CRASH (quote-aware): nothing but `InvalidValue`; an unclosed quoted-string, a backslash at the end of the input
+do not leave the contract of the backward scan and do not exhaust the fuel. -/
+theorem qa_array_no_crash (b sepSet ws : Bytes) (skipEmpty : Bool) (maxItems : Option Nat) (off : Nat)
+    (hoff : off ≤ b.length) (kind : String) :
+    parseStringArrayQ b off sepSet ws skipEmpty maxItems ≠ .error (.crash kind) := by
+  rcases Cp.Text.array_totalQ b sepSet ws skipEmpty maxItems off hoff with ⟨items, off', h, _⟩ | h <;>
+    rw [h] <;> intro hc <;> cases hc
+
+/-- what the quote-aware scanner returns is the specification -/
+theorem qa_scanItems_is_spec (sep : UInt8) (ws : Bytes) (skipEmpty : Bool) (hsep : sep ∉ ws) (hq : sep ≠ 0x22)
+    (hqw : (0x22 : UInt8) ∉ ws) (b : Bytes) :
+    scanItemsQ sep ws skipEmpty b = splitTrimDropQ sep ws skipEmpty b :=
+  scanItemsQ_eq sep ws skipEmpty hsep hq hqw b
+
+/-- UNCHANGED WITHOUT QUOTES: on an input without a double quote the quote-aware scanner returns what the plain one
+returns (the repair changes nothing for such values). -/
+theorem qa_agrees_without_quotes (sep : UInt8) (ws : Bytes) (skipEmpty : Bool) (hsep : sep ∉ ws) (hq : sep ≠ 0x22)
+    (hqw : (0x22 : UInt8) ∉ ws) (b : Bytes) (hb : (0x22 : UInt8) ∉ b) :
+    parseStringArrayQ b 0 [sep] ws skipEmpty none = parseStringArray b 0 [sep] ws skipEmpty none := by
+  rw [qa_scan_refines_split sep ws skipEmpty hsep hq hqw, scan_refines_split sep ws skipEmpty hsep,
+    splitTrimDropQ_eq_plain sep ws skipEmpty b hb]
+
+/-- a run of whitespace in front of the value -/
+theorem qa_ws_at_start (sep : UInt8) (ws : Bytes) (skipEmpty : Bool) (hsep : sep ∉ ws) (hq : sep ≠ 0x22)
+    (hqw : (0x22 : UInt8) ∉ ws) (w b : Bytes) (hw : ∀ x ∈ w, x ∈ ws) :
+    scanItemsQ sep ws skipEmpty (w ++ b) = scanItemsQ sep ws skipEmpty b := by
+  rw [scanItemsQ_eq _ _ _ hsep hq hqw, scanItemsQ_eq _ _ _ hsep hq hqw, specQ_leading_ws sep ws w b skipEmpty hsep hqw hw]
+
+/-- a run of whitespace behind the value (even behind an unclosed quoted-string) -/
+theorem qa_ws_at_end (sep : UInt8) (ws : Bytes) (skipEmpty : Bool) (hsep : sep ∉ ws) (hq : sep ≠ 0x22)
+    (hqw : (0x22 : UInt8) ∉ ws) (w b : Bytes) (hw : ∀ x ∈ w, x ∈ ws) :
+    scanItemsQ sep ws skipEmpty (b ++ w) = scanItemsQ sep ws skipEmpty b := by
+  rw [scanItemsQ_eq _ _ _ hsep hq hqw, scanItemsQ_eq _ _ _ hsep hq hqw, splitTrimDropQ_eq, splitTrimDropQ_eq,
+    elemsQ_trailing_ws sep ws b w hsep hw]
+
+/-- a run of whitespace before a separator that is outside quoted-strings -/
+theorem qa_ws_before_sep (sep : UInt8) (ws : Bytes) (skipEmpty : Bool) (hsep : sep ∉ ws) (hq : sep ≠ 0x22)
+    (hqw : (0x22 : UInt8) ∉ ws) (a w r : Bytes) (ha : qAfter .out a = .out) (hw : ∀ x ∈ w, x ∈ ws) :
+    scanItemsQ sep ws skipEmpty (a ++ (w ++ sep :: r)) = scanItemsQ sep ws skipEmpty (a ++ sep :: r) := by
+  rw [scanItemsQ_eq _ _ _ hsep hq hqw, scanItemsQ_eq _ _ _ hsep hq hqw, splitTrimDropQ_eq, splitTrimDropQ_eq,
+    elemsQ_ws_before_sep sep ws a w r hsep hq hqw ha hw]
+
+/-- a run of whitespace after a separator that is outside quoted-strings -/
+theorem qa_ws_after_sep (sep : UInt8) (ws : Bytes) (skipEmpty : Bool) (hsep : sep ∉ ws) (hq : sep ≠ 0x22)
+    (hqw : (0x22 : UInt8) ∉ ws) (a w r : Bytes) (ha : qAfter .out a = .out) (hw : ∀ x ∈ w, x ∈ ws) :
+    scanItemsQ sep ws skipEmpty (a ++ sep :: (w ++ r)) = scanItemsQ sep ws skipEmpty (a ++ sep :: r) := by
+  rw [scanItemsQ_eq _ _ _ hsep hq hqw, scanItemsQ_eq _ _ _ hsep hq hqw, splitTrimDropQ_eq, splitTrimDropQ_eq,
+    elemsQ_ws_after_sep sep ws a w r hsep hq hqw ha hw]
+
+/-- with `skip_empty` an additional separator outside quoted-strings (an empty element `;;`) changes nothing -/
+theorem qa_empty_element (sep : UInt8) (ws : Bytes) (hsep : sep ∉ ws) (hq : sep ≠ 0x22) (hqw : (0x22 : UInt8) ∉ ws)
+    (a r : Bytes) (ha : qAfter .out a = .out) :
+    scanItemsQ sep ws true (a ++ sep :: sep :: r) = scanItemsQ sep ws true (a ++ sep :: r) := by
+  rw [scanItemsQ_eq _ _ _ hsep hq hqw, scanItemsQ_eq _ _ _ hsep hq hqw, splitTrimDropQ_eq, splitTrimDropQ_eq]
+  exact dropItemsQ_extra_sep sep ws a r hq ha
+
+/-- with `skip_empty` a separator in front of the value changes nothing -/
+theorem qa_leading_separator (sep : UInt8) (ws : Bytes) (hsep : sep ∉ ws) (hq : sep ≠ 0x22)
+    (hqw : (0x22 : UInt8) ∉ ws) (b : Bytes) :
+    scanItemsQ sep ws true (sep :: b) = scanItemsQ sep ws true b := by
+  rw [scanItemsQ_eq _ _ _ hsep hq hqw, scanItemsQ_eq _ _ _ hsep hq hqw, splitTrimDropQ_eq, splitTrimDropQ_eq]
+  exact dropItemsQ_leading_sep sep ws b hq
+
+/-- with `skip_empty` a separator behind a value with balanced quotes changes nothing -/
+theorem qa_trailing_separator (sep : UInt8) (ws : Bytes) (hsep : sep ∉ ws) (hq : sep ≠ 0x22)
+    (hqw : (0x22 : UInt8) ∉ ws) (b : Bytes) (hb : qAfter .out b = .out) :
+    scanItemsQ sep ws true (b ++ [sep]) = scanItemsQ sep ws true b := by
+  rw [scanItemsQ_eq _ _ _ hsep hq hqw, scanItemsQ_eq _ _ _ hsep hq hqw, splitTrimDropQ_eq, splitTrimDropQ_eq]
+  exact dropItemsQ_trailing_sep sep ws b hq hb
+
+/-- CANONICAL SPELLING (quote-aware).  Trimmed, non-empty ASCII items with balanced quotes (`qAfter .out i = .out`) and
+no separator OUTSIDE a quoted-string (`freeQ`) — a separator INSIDE a quoted-string is allowed — joined by the separator
+followed by any run of whitespace parse back to exactly these items, and the whole buffer is consumed. -/
+theorem qa_canonical_parses_back (sep : UInt8) (ws w : Bytes) (skipEmpty : Bool) (hsep : sep ∉ ws) (hq : sep ≠ 0x22)
+    (hqw : (0x22 : UInt8) ∉ ws) (hw : ∀ x ∈ w, x ∈ ws) (items : List Bytes) (hne : items ≠ [])
+    (hi : ∀ i ∈ items, freeQ sep .out i = true ∧ qAfter .out i = .out ∧ trim ws i = i ∧ i ≠ [] ∧ isAscii i = true) :
+    parseStringArrayQ (List.intercalate (sep :: w) items) 0 [sep] ws skipEmpty none =
+      .ok (items, (List.intercalate (sep :: w) items).length) := by
+  rw [qa_scan_refines_split sep ws skipEmpty hsep hq hqw, splitTrimDropQ_eq, ← joinWith_eq_intercalate,
+    elemsQ_join sep ws w hsep hq hqw hw items hne (fun i h => ⟨(hi i h).1, (hi i h).2.1, (hi i h).2.2.1⟩),
+    specOfElems_items skipEmpty items (fun _ => hne) (fun i h => ⟨(hi i h).2.2.2.1, (hi i h).2.2.2.2⟩)]
+
+/-- the empty list is spelled by the empty string when empty elements are skipped -/
+theorem qa_canonical_empty (sep : UInt8) (ws : Bytes) (hsep : sep ∉ ws) (hq : sep ≠ 0x22) (hqw : (0x22 : UInt8) ∉ ws) :
+    parseStringArrayQ [] 0 [sep] ws true none = .ok ([], 0) := by
+  rw [qa_scan_refines_split sep ws true hsep hq hqw]
+  simp [splitTrimDropQ, splitQ, trim, trimStart, trimEnd, keepAscii]
+
+/-- A SEPARATOR INSIDE A QUOTED-STRING DOES NOT SPLIT.  An element `name "body"` — `name` without separator and double
+quote, `body` any run of qdtext and quoted-pairs (`quotedBody`: read inside the quotes the state never leaves them; the
+separator, SP, escaped `\"` and `\\` are all allowed) — between any clean elements `pre` and `post` is returned as ONE
+item, bytes unchanged, and its neighbours are returned as they are. -/
+theorem quoted_separator_not_split (sep : UInt8) (ws w : Bytes) (skipEmpty : Bool) (hsep : sep ∉ ws) (hq : sep ≠ 0x22)
+    (hqw : (0x22 : UInt8) ∉ ws) (hw : ∀ x ∈ w, x ∈ ws) (name body : Bytes) (pre post : List Bytes)
+    (hn1 : sep ∉ name) (hn2 : (0x22 : UInt8) ∉ name) (hbody : quotedBody .inq body = true)
+    (hitem : trim ws (name ++ 0x22 :: (body ++ [0x22])) = name ++ 0x22 :: (body ++ [0x22]))
+    (hascii : isAscii (name ++ 0x22 :: (body ++ [0x22])) = true)
+    (hi : ∀ i ∈ pre ++ post,
+      freeQ sep .out i = true ∧ qAfter .out i = .out ∧ trim ws i = i ∧ i ≠ [] ∧ isAscii i = true) :
+    parseStringArrayQ (List.intercalate (sep :: w) (pre ++ (name ++ 0x22 :: (body ++ [0x22])) :: post)) 0 [sep] ws
+        skipEmpty none =
+      .ok (pre ++ (name ++ 0x22 :: (body ++ [0x22])) :: post,
+        (List.intercalate (sep :: w) (pre ++ (name ++ 0x22 :: (body ++ [0x22])) :: post)).length) := by
+  apply qa_canonical_parses_back sep ws w skipEmpty hsep hq hqw hw _ (by simp)
+  intro i hmem
+  rcases List.mem_append.mp hmem with h | h
+  · exact hi i (List.mem_append_left _ h)
+  · rcases List.mem_cons.mp h with h | h
+    · subst h
+      obtain ⟨h1, h2⟩ := name_quoted_free sep hq name body hn1 hn2 hbody
+      exact ⟨h1, h2, hitem, by simp, hascii⟩
+    · exact hi i (List.mem_append_right _ h)
+
+/-- LINEAR (quote-aware): interpreter steps of `_parse_string_array(…, quote_aware=True)` are at most
+`21·len + 15` — per end position one step more than the plain scanner (the quoted-string state update). -/
+theorem qa_array_ticks_linear (sep : UInt8) (ws : Bytes) (skipEmpty : Bool) (hsep : sep ∉ ws) (b : Bytes) :
+    arrayTicksQ b 0 [sep] ws skipEmpty none ≤ 21 * b.length + 15 :=
+  Cp.Text.array_ticks_linearQ sep ws skipEmpty hsep b
+
 /-! ## non-vacuity: the hypotheses are satisfiable and the statements are about the real edge cases -/
 
 -- `;` with SP/HTAB, the parameters of `NameValuePairList` (semicolon separated header fields)
@@ -187,5 +347,27 @@ example : parseStringUntilSeparator [0x20, 0x20, 0x3b] 0 [[0x3b]] true [0x20] = 
 -- and the cost functions are not constantly zero
 example : arrayTicks [0x61, 0x3b, 0x62] 0 [0x3b] [0x20] true none = 32 := by decide
 example : sepSearchBytes [0x61, 0x61, 0x61, 0x61] 0 [[0x3b]] 5 0 = 10 := by decide
+
+
+-- quote-aware: `x="a; b"; c` is [x="a; b", c] — and the plain scanner (quote_aware=False) still splits inside the quotes
+example : parseStringArrayQ [0x78, 0x3d, 0x22, 0x61, 0x3b, 0x20, 0x62, 0x22, 0x3b, 0x20, 0x63] 0 [0x3b] [0x20, 0x09] true none =
+    .ok ([[0x78, 0x3d, 0x22, 0x61, 0x3b, 0x20, 0x62, 0x22], [0x63]], 11) := by decide
+example : parseStringArray [0x78, 0x3d, 0x22, 0x61, 0x3b, 0x20, 0x62, 0x22, 0x3b, 0x20, 0x63] 0 [0x3b] [0x20, 0x09] true none =
+    .ok ([[0x78, 0x3d, 0x22, 0x61], [0x62, 0x22], [0x63]], 11) := by decide
+-- an escaped quote does not close the string: `"a\";b"` is one item; `"a\\";b` is two
+example : parseStringArrayQ [0x22, 0x61, 0x5c, 0x22, 0x3b, 0x62, 0x22] 0 [0x3b] [0x20] true none =
+    .ok ([[0x22, 0x61, 0x5c, 0x22, 0x3b, 0x62, 0x22]], 7) := by decide
+example : parseStringArrayQ [0x22, 0x61, 0x5c, 0x5c, 0x22, 0x3b, 0x62] 0 [0x3b] [0x20] true none =
+    .ok ([[0x22, 0x61, 0x5c, 0x5c, 0x22], [0x62]], 7) := by decide
+-- an unclosed quoted-string extends to the end of the input; a backslash outside quotes is an ordinary byte
+example : parseStringArrayQ [0x61, 0x3b, 0x22, 0x62, 0x3b, 0x63] 0 [0x3b] [0x20] true none =
+    .ok ([[0x61], [0x22, 0x62, 0x3b, 0x63]], 6) := by decide
+example : parseStringArrayQ [0x5c, 0x22, 0x3b, 0x61] 0 [0x3b] [0x20] true none = .ok ([[0x5c, 0x22, 0x3b, 0x61]], 4) := by
+  decide
+-- the quote-aware cost function: inside the quotes no separator is tested (2 per end position), outside 3
+example : arrayTicksQ [0x22, 0x3b, 0x22, 0x3b, 0x62] 0 [0x3b] [0x20] true none = 41 := by decide
+-- the hypotheses of `quoted_separator_not_split` are satisfiable: body `a; \"b` of `x="a; \"b"`
+example : quotedBody .inq [0x61, 0x3b, 0x20, 0x5c, 0x22, 0x62] = true := by decide
+example : quotedBody .inq [0x61, 0x22, 0x62] = false := by decide
 
 end Cp.C18
